@@ -4,7 +4,7 @@ import vlib
 
 PID = "C18"
 GEN_CFG = "CONSTANTS N = %d  K = %d\nSPECIFICATION Spec\nINVARIANTS T4ser T3ser Emit\nCHECK_DEADLOCK FALSE\n"
-UNIVERSES = {"quick": [(2, 5), (3, 4)], "thorough": [(2, 6), (3, 5)]}
+UNIVERSES = {"quick": [(2, 5), (3, 4)], "thorough": [(2, 7), (3, 5)]}
 
 
 def gen(tier):
